@@ -71,6 +71,9 @@ _PROC_RULE = ("proc: real process.Start/Invoke/tryRestart/cleanup on one gorouti
               "(one or two panics at every delivery position incl. Initialized/Started of later incarnations), plus seeded random histories (1-3 batches of 1-6 items, "
               "0-3 pills, scripts with panics and InternalErrors, budgets 0..3, chains 0..3); non-trivial = at least one panic or pill; distinct = distinct input lines")
 _PROC_STREAM = dict(name="proc", pkg="actor", test="TestVerifProc", shrink_key="hist")
+_LIFE_STREAM = dict(name="life", pkg="actor", test="TestVerifLife", timeout=1800, timeout_thorough=3400)
+_LIFE_RULE = (" || life: a real actor on a real engine (H-sys): 1-4 sender goroutines that start as soon as the PID is registered (Started is still being handled), 1-30 (sometimes 200-500) messages each, "
+              "crashing messages within the restart budget, restart delay 2 ms, inbox sizes 1/2/4/1024, final Poison or Stop; the actor's own log is judged by the life-cycle acceptor and by exactly-once / per-sender order / sender fidelity")
 _PROC_ASSUME = ["the receiver never panics while handling Stopped (outside every property's quantifier)",
                 "MaxRestarts >= 0; RestartDelay is not modelled (0 in the harness)",
                 "children are not part of this stream (C08)",
@@ -138,14 +141,14 @@ PROPS = {
                      "regsched: real registry.go under the deterministic scheduler: ALL interleavings of 6 small programs (2-3 threads, concurrent SpawnProc of one id, spawn/remove/respawn) plus seeded random "
                      "programs and schedules, replayed step by step in the model; non-trivial = a duplicate spawn or a stop of a live actor (reg), >= 2 adds (regsched); distinct = distinct inputs",
                 assumptions=["sync.RWMutex mutual exclusion; each Registry method is one critical section (regenerated fact, also exercised: the shim yields at every lock acquisition)"]),
-    "C04": dict(lean_modules=["HW.Props.C04"], streams=[_PROC_STREAM], rule=_PROC_RULE, assumptions=_PROC_ASSUME, spec_relevant=r"FAIL:(\S*C04|harness)"),
-    "C05": dict(lean_modules=["HW.Props.C05"], streams=[_PROC_STREAM], rule=_PROC_RULE, assumptions=_PROC_ASSUME, spec_relevant=r"FAIL:(\S*C05|harness)"),
+    "C04": dict(lean_modules=["HW.Props.C04"], streams=[_PROC_STREAM, _LIFE_STREAM], rule=_PROC_RULE + _LIFE_RULE, assumptions=_PROC_ASSUME, spec_relevant=r"FAIL:(\S*C04|harness)"),
+    "C05": dict(lean_modules=["HW.Props.C05"], streams=[_PROC_STREAM, _LIFE_STREAM], rule=_PROC_RULE + _LIFE_RULE, assumptions=_PROC_ASSUME, spec_relevant=r"FAIL:(\S*C05|harness)"),
     "C06": dict(lean_modules=["HW.Props.C06"], facts=True, streams=[_PROC_STREAM], rule=_PROC_RULE, assumptions=_PROC_ASSUME, spec_relevant=r"FAIL:(\S*C06|harness)"),
-    "C07": dict(lean_modules=["HW.Props.C07"], streams=[_PROC_STREAM], rule=_PROC_RULE, assumptions=_PROC_ASSUME, spec_relevant=r"FAIL:(\S*C07|harness)"),
+    "C07": dict(lean_modules=["HW.Props.C07"], streams=[_PROC_STREAM, _LIFE_STREAM], rule=_PROC_RULE + _LIFE_RULE, assumptions=_PROC_ASSUME, spec_relevant=r"FAIL:(\S*C07|harness)"),
     "C13": dict(lean_modules=["HW.Props.C13"], streams=[_PROC_STREAM, dict(name="mwopts", pkg="actor", test="TestVerifMwOpts")],
                 rule=_PROC_RULE + " || mwopts: 1-3 real actors spawned with WithMiddleware(common...)+WithMiddleware(own) from one shared slice (0-3 common, 0-2 spare capacity), chain observed on a user message after all spawns (exhaustive over that grid)", assumptions=_PROC_ASSUME, spec_relevant=r"FAIL:(\S*C13|harness)"),
-    "C01": dict(lean_modules=["HW.Props.C01"], facts=True, streams=[_SCHED_STREAM], rule=_SCHED_RULE, assumptions=_SCHED_ASSUME,
-                spec_relevant=r"FAIL:(C01|C03|harness)"),
+    "C01": dict(lean_modules=["HW.Props.C01"], facts=True, streams=[_SCHED_STREAM, _LIFE_STREAM], rule=_SCHED_RULE + _LIFE_RULE, assumptions=_SCHED_ASSUME,
+                spec_relevant=r"FAIL:(\S*C01|\S*C03|harness)"),
     "C02": dict(lean_modules=["HW.Props.C02"], facts=True, streams=[_SCHED_STREAM, _PROC_STREAM], rule=_SCHED_RULE + " || " + _PROC_RULE,
                 assumptions=_SCHED_ASSUME + ["'no inbox.Start after inbox.Stop' is checked on the process stream (HW.Proc.noReopen)"],
                 spec_relevant=r"FAIL:(\S*C02|harness)"),
